@@ -1,8 +1,8 @@
 """C09 — generation is deterministic; re-running on unchanged input is a no-op.
 
 PARTIAL.  What is proof (Coq, Properties/C09.v): permutation invariance of every inventoried order-relevant
-set-iteration site (refuted at _ensure_path_variables_as_params, F09a), soundness of the diff decision
-(refuted: F09b/f/g), agreement of the force path with the temp-dir path and the rerun corollary (refuted:
+set-iteration site (full since the fix of F09a), soundness of the diff decision (full for *.py files since
+the fix of F09b/F09f; whole trees: F09g open), agreement of the force path with the temp-dir path and the rerun corollary (refuted:
 F09c/d/e).  What is NOT a theorem and is only a differential oracle here: byte-level determinism of the whole
 generator across PYTHONHASHSEED values, fresh/warm processes and output roots (sha256 of every file), and
 the end-to-end `generate; generate(no force)` / existing-tree-differs runs.
@@ -51,8 +51,7 @@ TRUSTED = [
     "hash-seed differential is the backstop",
     "whole-generator byte determinism is NOT proved: it is the differential oracle of this run "
     "(sha256 of every file across PYTHONHASHSEED 0/1/2/random, fresh vs warm process, two roots)",
-    "difflib.unified_diff(a, b) is empty iff a == b; Path.read_text universal-newline translation; str.splitlines "
-    "boundary set as transcribed in Diff.v (validated by the diff stream)",
+    "file contents are compared as bytes; the model compares the code points of the (UTF-8) text (validated by the diff stream)",
 ]
 
 
@@ -392,14 +391,6 @@ def abstract_ops(spec: dict) -> list[dict]:
     return out
 
 
-def py_guard_F09a(spec: dict) -> bool:
-    for o in abstract_ops(spec):
-        names = {d[0] for d in o["declared"]}
-        if len([v for v in o["vars"] if san(v) not in names]) > 1:
-            return False
-    return True
-
-
 # =====================================================================================================
 # stream det: whole-generator determinism (differential; NOT a theorem)
 VARIANTS_QUICK = [("seed0", "0"), ("seed1", "1"), ("seed2", "2"), ("seedR", "random")]
@@ -429,7 +420,8 @@ def run_det(spec: dict, extra_seeds: list[str] | None = None, package: str = "cl
             status[name] = "ok" if r.ok else norm_err(r.error, root)
             snaps[name] = snapshot(root)
         ref = "seed0"
-        fails, soft = [], []
+        fails: list[str] = []
+        soft: list[str] = []
         differing: dict[str, list[str]] = {}
         for name in snaps:
             if name == ref:
@@ -440,20 +432,7 @@ def run_det(spec: dict, extra_seeds: list[str] | None = None, package: str = "cl
             d = sorted(k for k in set(snaps[ref]) | set(snaps[name]) if snaps[ref].get(k) != snaps[name].get(k))
             if d:
                 differing[name] = d
-                # is the difference confined to what F09a explains?  (endpoint / mock-endpoint modules whose
-                # lines are the same multiset: only the order of per-parameter lines changed)
-                explained = True
-                for rel in d:
-                    pa, pb = roots[ref] / rel, roots[name] / rel
-                    if not (pa.exists() and pb.exists() and re.search(r"(^|/)endpoints/[^/]+\.py$", rel)):
-                        explained = False
-                        break
-                    la, lb = pa.read_text().splitlines(), pb.read_text().splitlines()
-                    if sorted(la) != sorted(lb) or any(x != y and re.match(r"\s*(import|from)\s", x + " ") for x, y in zip(la, lb)):
-                        explained = False   # not a pure reordering of per-parameter lines (e.g. import lines moved)
-                        break
-                (soft if explained else fails).append(
-                    f"files differ between {ref} and {name}: {d[:6]}" + ("" if explained else " (not a parameter-order-only difference)"))
+                fails.append(f"files differ between {ref} and {name}: {d[:6]}")
         return {"status": status, "differing": differing, "hard": fails, "soft": soft,
                 "n_files": len(snaps[ref])}
     finally:
@@ -521,15 +500,13 @@ def c_params(ps: list) -> str:
     return clist(cpair(cstr(n), cbool(r)) for n, r in ps)
 
 
-def c_op_abs(o: dict) -> str:
-    return cpair(clist(cpair(cstr(a), cstr(b)) for a, b in o["san"]), c_params(o["declared"]), clist(cstr(v) for v in o["vars"]))
-
-
 # =====================================================================================================
 # stream modes: force run, then non-force rerun; the model predicts (outcome, reported files)
 def differing_from_log(log: str, root: Path) -> list[str]:
     out = set()
-    for m in re.finditer(r"^--- (\S+)", log, re.M):
+    for m in re.finditer(r"^Only in (newly generated|existing) output: (\S+)", log, re.M):
+        out.add(("only-new:" if m.group(1).startswith("newly") else "only-old:") + m.group(2))
+    for m in re.finditer(r"^(?:--- |Files differ only in line endings: )(\S+)", log, re.M):
         p = m.group(1)
         try:
             out.add(str(Path(p).relative_to(root.resolve())))
@@ -1071,7 +1048,7 @@ def main(chk: Check, replay: dict | None = None) -> int:
               "site2": run_site2_case, "history": run_history_case}.get(kind)
         if kind == "det":
             r = run_det(inp["spec"])
-            r = {"obs": r, "oracle_fail": r["hard"] + r["soft"]}
+            r = {"obs": r, "oracle_fail": r["hard"]}
         else:
             r = fn(inp)
         print(json.dumps({"obs": r["obs"], "oracle_fail": r["oracle_fail"]}, indent=1, default=str)[:4000])
@@ -1096,16 +1073,10 @@ def main(chk: Check, replay: dict | None = None) -> int:
     det_cases = []
     for spec in det_specs:
         r = run_det(spec, extra_seeds=["3", "4", "5", "17"] if chk.thorough else None)
-        inp = {"kind": "det", "spec": spec}
-        ops = abstract_ops(spec)
-        if r["hard"]:
-            # not explained by the parameter-order mechanism: must not be attributed to F09a whatever the guard says
-            det_cases.append({"input": inp, "abs": [], "obs": r, "oracle_fail": r["hard"]})
-        det_cases.append({"input": inp, "abs": ops, "obs": r, "oracle_fail": r["soft"]})
-    codes = chk.coq_eval(imports, "list op_abs * unit", [f"({clist(c_op_abs(o) for o in c['abs'])}, tt)" for c in det_cases],
-                         "run_det", tag="det") if chk.model_ok else None
-    chk.decide(det_cases, codes, {1: "F09a"}, "det: (no model of the whole generator; guard evaluation only)")
-    dist["det"] = {"documents": len(det_specs), "generator_runs": sum(len(c["obs"]["status"]) for c in det_cases if c["abs"] or not c["obs"]["hard"]),
+        det_cases.append({"input": {"kind": "det", "spec": spec}, "obs": r, "oracle_fail": r["hard"]})
+    # no model of the whole generator and (since the fix of F09a) no known seed sensitivity: every failure is a violation
+    chk.decide(det_cases, None, {}, "det (no model)")
+    dist["det"] = {"documents": len(det_specs), "generator_runs": sum(len(c["obs"]["status"]) for c in det_cases),
                    "generation_errors": sum(1 for c in det_cases if c["obs"]["status"]["seed0"] != "ok"),
                    "seed_sensitive": sum(1 for c in det_cases if c["obs"]["differing"]),
                    "files_hashed_per_run": [c["obs"]["n_files"] for c in det_cases][:12]}
@@ -1141,7 +1112,7 @@ def main(chk: Check, replay: dict | None = None) -> int:
     e2e_cases = [run_e2e_case(i) for i in e2e_inputs]
     codes = chk.coq_eval(imports, "(tree * tree) * bool", [c_e2e_case(c) for c in e2e_cases], "run_diff", tag="e2e") \
         if chk.model_ok else None
-    chk.decide(e2e_cases, codes, {1: "F09b", 2: "F09f", 3: "F09g"},
+    chk.decide(e2e_cases, codes, {1: "F09g"},
                "e2e: Diff.show_diffs(existing, pristine) = the non-force run raised 'Differences found'")
     dist["e2e"] = {"cases": len(e2e_cases), "by_mutation": {m: sum(1 for c in e2e_cases if c["input"]["mutation"] == m) for m in E2E_MUTATIONS}}
     n_eval += len(e2e_cases)
@@ -1152,7 +1123,7 @@ def main(chk: Check, replay: dict | None = None) -> int:
     diff_cases = [run_diff_case(i) for i in diff_inputs]
     codes = chk.coq_eval(imports, "(tree * tree) * bool", [c_diff_case(c) for c in diff_cases], "run_diff", tag="diff") \
         if chk.model_ok else None
-    chk.decide(diff_cases, codes, {1: "F09b", 2: "F09f", 3: "F09g"},
+    chk.decide(diff_cases, codes, {1: "F09g"},
                "diff: Diff.show_diffs = ClientGenerator._show_diffs on temp dirs")
     dist["diff"] = {"cases": len(diff_cases), "has_diff": sum(1 for c in diff_cases if c["obs"]["has_diff"]),
                     "oracle_failures": sum(1 for c in diff_cases if c["oracle_fail"])}
@@ -1164,7 +1135,7 @@ def main(chk: Check, replay: dict | None = None) -> int:
     s1_cases = [run_site1_case(i) for i in s1_inputs]
     codes = chk.coq_eval(imports, "site1_in * (list str * list str)", [c_site1_case(c) for c in s1_cases], "run_site1", tag="site1") \
         if chk.model_ok else None
-    chk.decide(s1_cases, codes, {1: "F09a"}, "site1: Sites.signature_order = process_parameters under a forced set order")
+    chk.decide(s1_cases, codes, {}, "site1: Sites.signature_order = process_parameters under a forced set order")
     s2_inputs = [{k: v for k, v in c["input"].items() if k != "kind"} for c in corpus if c["input"].get("kind") == "site2"]
     s2_inputs += [gen_site2(rng) for _ in range(1200 if chk.thorough else 250)]
     s2_cases = [run_site2_case(i) for i in s2_inputs]
